@@ -106,21 +106,45 @@ class FakeDisk:
         self.counters: dict[str, int] = {}
         self.epoch: bytes | None = None
         self.authentic_epoch: dict[tuple, set] = {}
+        self.lib_unpickled: list = []  # rows the storage library itself unpickled on fetch (nothing authenticated them)
+        self.last_row_key: str | None = None
 
     def count(self, name: str) -> None:
         self.counters[name] = self.counters.get(name, 0) + 1
 
 
 def make_fake_diskcache(disk: FakeDisk) -> types.ModuleType:
+    _fd = disk
+    core = types.SimpleNamespace(MODE_NONE=0, MODE_RAW=1, MODE_BINARY=2, MODE_TEXT=3, MODE_PICKLE=4)
+
+    class Disk:
+        """The library's value codec: bytes / str / int / float are stored raw, EVERYTHING ELSE AS A PICKLE - and a row in pickle
+        mode is unpickled by fetch() before the caller of Cache.get() sees anything (diskcache.Disk.fetch does exactly that)."""
+
+        def __init__(self, directory: str = "", **kw: Any) -> None:
+            self._directory = directory
+
+        def fetch(self, mode: int, filename: Any, value: Any, read: bool) -> Any:
+            if mode == core.MODE_PICKLE:
+                disk.count("library_unpickled_a_row")
+                disk.lib_unpickled.append(disk.last_row_key)
+            return value
+
     class Cache:
-        def __init__(self, directory: str, **kw: Any) -> None:
+        def __init__(self, directory: str, timeout: float = 60, disk: Any = Disk, **kw: Any) -> None:  # noqa: A002 - the library's parameter name
             self.directory = directory
-            self.d = disk.dirs.setdefault(directory, {})
+            self.d = _fd.dirs.setdefault(directory, {})
+            self._disk = disk(directory)
 
         def get(self, key: str, default: Any = None) -> Any:
             if not key.endswith(":hmac"):
-                disk.last_get_key = key
-            return self.d.get(key, default)
+                _fd.last_get_key = key
+            if key not in self.d:
+                return default
+            value = self.d[key]
+            _fd.last_row_key = key
+            mode = core.MODE_RAW if type(value) in (bytes, str, int, float) else core.MODE_PICKLE
+            return self._disk.fetch(mode, None, value, False)
 
         def set(self, key: str, value: Any) -> bool:
             i = disk.n_write
@@ -150,6 +174,8 @@ def make_fake_diskcache(disk: FakeDisk) -> types.ModuleType:
 
     mod = types.ModuleType("diskcache")
     mod.Cache = Cache
+    mod.Disk = Disk
+    mod.core = core
     return mod
 
 
@@ -192,10 +218,29 @@ class DiskSeams:
         self._old_mod = sys.modules.get("diskcache")
         if self.disk is not None:
             sys.modules["diskcache"] = make_fake_diskcache(self.disk)
+        else:
+            # real library: record every row IT unpickles on fetch (DiskCache stores bytes and str only - never a pickle-mode row)
+            import diskcache.core as dc
+
+            shim = self.shim
+            shim.lib_loads = []
+
+            class _LibPickle:
+                def __getattr__(self, name: str) -> Any:
+                    return getattr(_pickle, name)
+
+                def load(self, f: Any, *a: Any, **k: Any) -> Any:
+                    shim.lib_loads.append(1)
+                    return _pickle.load(f, *a, **k)
+
+            self._dc, self._old_dc_pickle = dc, dc.pickle
+            dc.pickle = _LibPickle()
         return self
 
     def __exit__(self, *exc: Any) -> None:
         self._hc.pickle = self._old_pickle
+        if self.disk is None:
+            self._dc.pickle = self._old_dc_pickle
         if self.disk is not None:
             if self._old_mod is not None:
                 sys.modules["diskcache"] = self._old_mod
